@@ -328,6 +328,60 @@ def slow_pair(res, first, second, ack_delay, reaction="ack"):
         w.dispose()
 
 
+def giveup_then_later(res, n_first, later_slow):
+    """The peer never acknowledges the separate responses to n_first slow requests; the server gives up on them (time-out of the
+    first one).  A request of the same peer long after that is answered like any other."""
+    global OUTCOMES
+    OUTCOMES = OUTCOMES or outcomes()
+    w = World()
+    try:
+        site = resource.Site()
+        site.add_resource(["a"], make_resource(OUTCOMES["ret-payload"][0], 0.3))
+        site.add_resource(["f"], make_resource(OUTCOMES["ret-payload"][0], 0.0))
+        w.add_context("srv", *SRV, site=site)
+        w.add_peer(Peer("p1", *P1))       # acknowledges nothing
+        for i in range(n_first):
+            w.inject(P1, SRV, rc.encode((rc.CON, 1, 0x3501 + i, bytes([0x71 + i]), [(11, b"a")], b"")))
+        w.pool.clear()
+        w.loop.advance_to(120.0)          # well past MAX_TRANSMIT_WAIT: the first separate response has been given up
+        w.pool.clear()
+        n0 = len(w.sent)
+        w.add_peer  # (same peer, now attentive: it acknowledges what it gets)
+        tok = b"\x7e"
+        w.inject(P1, SRV, rc.encode((rc.CON, 1, 0x3601, tok, [(11, b"a" if later_slow else b"f")], b"")))
+        t_end = 130.0
+        acked = set()
+        while True:
+            for dg in list(w.pool):
+                w.pool.remove(dg)
+                m = rc.decode(dg.data, check_formats=False)
+                if m[0] == rc.CON and m[1] >= 64 and m[2] not in acked:
+                    acked.add(m[2])
+                    w.inject(P1, SRV, rc.encode((rc.ACK, 0, m[2], b"", [], b"")))
+            tn = w.loop.next_timer()
+            if tn is None or tn > t_end:
+                break
+            w.loop.fire_next_timer()
+        case = {"giveup_then_later": [n_first, later_slow]}
+        res.evaluations += 1
+        res.traces += 1
+        fin = finals(w, P1, tok)
+        acks = [rc.decode(d.data, check_formats=False) for d in w.sent[n0:] if d.src == SRV and d.data[0] & 0x30 == 0x20 and ((d.data[2] << 8) | d.data[3]) == 0x3601]
+        if len(fin) != 1 or fin[0][1] != 69 or len(acks) != 1:
+            res.violate(Violation("failure-affects-later-request", {"final responses": 1, "code": "2.05", "acknowledgements": 1},
+                                  {"finals": [(rc.code_str(m[1]), m[5]) for m in fin], "acks": len(acks)}, "messagemanager.py:_retransmit", case,
+                                  trace=w.trace[-20:], key="later:" + ("none" if not fin else "other")))
+        for msg, e in w.loop_exceptions():
+            res.violate(Violation("loop-exception", "none", core.exc_desc(e) if e else msg, core.site_of(e) if e else "loop", case,
+                                  key=type(e).__name__ if e else msg[:40]))
+        res.states.add(core.digest(("giveup", n_first, later_slow, len(fin))))
+        res.transitions += n_first + 1
+        res.outcomes.add(core.digest(("giveup", len(fin))))
+        res.signatures.add(core.digest(("giveup", n_first, later_slow)))
+    finally:
+        w.dispose()
+
+
 def isolation_run(x_outcome, x_when, x_peer, x_slow, x_acked=True):
     """Neighbours: slow GET at t=0, fast GET at t=0.25, later GET at t=2.0; X (POST /x) at x_when or absent.
     x_acked=False: the acknowledgement of X's separate response never arrives (the run then lasts until that exchange has
@@ -384,6 +438,9 @@ def job(arg):
         for con in (True, False):
             for gap in (0.05, 0.2, 0.45):
                 token_reuse(res, con, gap)
+        for n_first in (1, 2, 3):
+            for later_slow in (True, False):
+                giveup_then_later(res, n_first, later_slow)
         for first in ("ret-payload", "raise-RuntimeError", "raise-Forbidden-text"):
             for second in ("ret-payload", "raise-RuntimeError", "raise-Forbidden-text"):
                 for ack_delay in (0.0, 0.2, 2.5):
@@ -470,6 +527,9 @@ def run(tier, seed, jobs):
 
 def replay(case, scenario, seed):
     res = Result()
+    if "giveup_then_later" in case:
+        giveup_then_later(res, *case["giveup_then_later"])
+        return [v for v, n in res.violations.values()]
     if "slow_pair" in case:
         slow_pair(res, *case["slow_pair"])
         return [v for v, n in res.violations.values()]
